@@ -12,3 +12,5 @@ require (
 )
 
 replace github.com/refraction-networking/utls => /repo
+
+require github.com/anishathalye/porcupine v1.3.0
